@@ -27,10 +27,10 @@ CLAIMED = {
    text="Same sessions and line faults as C01 with a host biased to cursor motion, tabs, margins, origin mode, save/restore, resets and scrolling with a scrollback present. After every delivered byte (until a ResizeTerminal action is observed): 0 <= column < terminal width and first visible row <= row < first visible row + height; for Viewdata and Mode 7 the buffer, terminal and layer geometry stay 40x24.",
    note="The cursor may be anywhere inside the visible rows. Checking stops at the first ResizeTerminal action of a run.",
    tech="deterministic simulation: per-byte geometry invariant under line faults"),
- "C10": dict(cat="exploration", ref="DESIGN.md §3 C10 (scoped)",
-   text="A monitor inside terminal sessions (fill-rectangle code points incl. surrogates and > U+10FFFF, macros, OSC strings, font payloads) and on every successful load of damaged files and clipboard payloads: every cell of every layer holds a Unicode scalar value and every engine-built string (layer titles, font names, SAUCE strings, hyperlink URLs, pending parser strings) is valid UTF-8.",
-   note="Scoped: the unchecked conversions inside the IcyDraw loader sit behind base64+zlib+PNG framing and are reached only when a fault survives that framing. An invalid char is observed numerically after the fact.",
-   tech="deterministic simulation: post-event scalar-value monitor under line, disk and clipboard faults"),
+ "C10": dict(cat="exploration", ref="DESIGN.md §3 C10 (as built)",
+   text="A monitor inside terminal sessions (fill-rectangle code points incl. surrogates and > U+10FFFF, text and hex macros whose pairs spell well-formed, surrogate, out-of-range, overlong and broken UTF-8 units in closed and open repeat groups, OSC strings, font payloads of 0..2^17 glyphs) and on every successful load of damaged files, fonts and clipboard payloads (disk faults, clipboard record faults, and faults applied inside the IcyDraw framing incl. a structure-aware one that sets a cell's 32-bit character field to values at the edges of the scalar range): every cell of every layer holds a Unicode scalar value, every glyph-table key of every font is one, and every engine-built string (layer titles, font names, SAUCE strings, hyperlink URLs, pending parser strings, stored macro bodies) is valid UTF-8.",
+   note="An invalid char is observed numerically after the fact (release profile). Scans after a control function cover the visible rows; periodic scans and the end-of-stream scan cover the whole scrollback. Stored macro bodies are read through a guarded read-only accessor.",
+   tech="deterministic simulation: post-event scalar-value monitor under line, disk, clipboard and in-framing faults"),
  "C14": dict(cat="exploration", ref="DESIGN.md §3 C14",
    text="Seeded search over decode-completion orders and poll placements with the engine's real decode threads parked at a gate and released one at a time; the canonical schedule space for k<=3 images (33 561 schedules, <=2 polls per gap) is swept completely by run index, larger k sampled. Oracles: rectangularity and declared-raster-size on every decode, arrival-order/shadowing reference model after every poll, no delivery of unfinished decodes, exactly-once, poll never blocks (5 s watchdog, confirmed by solo replay), bounded liveness after all releases. One run in eight (beyond the sweep) loads the payloads as an ANSI file: the loader's drain loop runs on virtual sleeps under three release schedules and the resulting image layers must equal the arrival-order/shadowing model. Sampling, not proof.",
    note="Trusts: the gate hook (cfg icy_engine_verif) parks a decode before it reads its payload; the reference image of an arrival is computed by calling the real Sixel::parse_from synchronously; font cell is 8x16 in these runs. 'Never blocks' is a 5 s wall-clock judgement on a microsecond call.",
